@@ -220,3 +220,14 @@ Theorem C11_no_ring_of_waiting_goroutines : forall ws : list LockOrder.waiter,
   Forall (LockOrder.justified GenLocksCheck.lk_order_graph) ws -> Forall (fun w => fst w <> []) ws -> ~ LockOrder.ring ws.
 Proof. exact GenLocksProofs.lk_no_ring. Qed.
 Print Assumptions C11_no_ring_of_waiting_goroutines.
+
+(* ---- the hand-over order, from the source: on EVERY path through checkAndRotateColFiles (call-order skeleton
+   regenerated from /repo on every run, callees inlined) the rotated segment is registered in the global metadata
+   (metadata.AddSegMetaToMetadata) before the writer drops its unrotated information (CleanupUnrotatedSegment): at
+   no instant is the segment in neither place (rule C11.* of GenOrderCheck.co_rules; Handover.v takes this order
+   as the writer's script). ---- *)
+From SigP Require GenOrderCheck GenOrderProofs.
+Theorem C11_code_registers_rotated_before_dropping_unrotated : forall r : GenOrderCheck.rule,
+  In r GenOrderProofs.c11_rules -> GenOrderCheck.rule_holds r.
+Proof. exact GenOrderProofs.co_C11_rules_hold. Qed.
+Print Assumptions C11_code_registers_rotated_before_dropping_unrotated.
